@@ -396,3 +396,24 @@ Example C05_volchain_grow_accounting_ex :
 Proof. split; vm_compute; repeat split. Qed.
 
 Print Assumptions C05_volchain_grow_accounting.
+
+(* ---- "a create that fails does not consume a cluster" is FALSE of the faithful model (and of the library: replayed through the
+   executor, see the report) when the run needs TWO new clusters and exactly ONE is free: the first allocation succeeds - cluster
+   zeroed, linked, 16 long-name slots written into it -, the second one fails, create_file answers NotEnoughSpace and the
+   directory KEEPS the new cluster (the only one that was free), holding nothing but an orphan run.  The witness on the 64-sector
+   volume (Proofs/VolChainGrowExamples.v ex_part_im: D with 14 of 16 slots in use, clusters 4 .. 61 owned by F, cluster 3 free; a
+   255-character name = 21 slots): every premise of C05_volchain_grow_accounting holds; NotEnoughSpace; chain [2] -> [2; 3];
+   count_free 1 -> 0; the one finding of Spec/Wf.v: OrphanLfn(D, 32).  (No cluster is LOST: it belongs to the directory's chain.) *)
+Theorem C05_volchain_grow_nospace_keeps_count_refuted :
+  exists im fi l name now im' fi' l',
+    (fixed_root_geom (parse_geom im) /\ g_cluster_size (parse_geom im) mod 32 = 0) /\ FatProofs.bytes_ok im /\
+    fi_inv fstore (val_ft (ft_of (parse_geom im))) (store_of (parse_geom im) im) fi (g_clusters (parse_geom im)) /\
+    Wf.wf_issues (fun x => x) im = [] /\ N.of_nat (cluster_slots (parse_geom im) * length l) < 134217728 /\
+    TimeProofs.datetime_valid now = true /\
+    (exists ra ed children labels rb, v_root (abs im) = ra ++ NDir ed (Some l) children [] labels :: rb) /\
+    vol_create_file_grow Name.upper_ascii Name.oem_decode_lossy im fi l name now = (Err ENotEnoughSpace, (im', fi', l')) /\
+    Abs.count_free (parse_geom im) im = 1 /\ Abs.count_free (parse_geom im) im' = 0 /\ l' = l ++ [3] /\
+    Wf.wf_issues (fun x => x) im' = [Wf.WOrphanLfn 2 32].
+Proof. exact grow_nospace_keeps_count_refuted. Qed.
+
+Print Assumptions C05_volchain_grow_nospace_keeps_count_refuted.
